@@ -8,10 +8,10 @@ SIZES = [1, 100, 4095, 4096, 4097, 16384, 32769, 65535, 65536, 65537]
 BIG = [200001, 524289, 1048577]
 
 
-async def realise(ctx, sq, n, scen, rnd, big):
+async def realise(ctx, sq, n, scen, rnd, big, stall=False):
     par = scen['par']
     rec = peers.Rec()
-    usizes = [rnd.choice(BIG if big else SIZES) for _ in range(par['units'])]
+    usizes = [rnd.choice([1048577, 3000001] if stall else BIG if big else SIZES) for _ in range(par['units'])]
     total = sum(usizes)
     version = (n % 4000) + 1
     body = peers.body_bytes(version, total)
@@ -25,7 +25,8 @@ async def realise(ctx, sq, n, scen, rnd, big):
             await oc.send(peers.response_head(200, 'OK', [('Content-Length', '2'), ('Cache-Control', 'no-store'), ('X-Verif-Origin', '1')]) + b'ok')
             return False
         return True
-    o = peers.Origin(rec, responder)
+    # stall: the origin leaves the connection unread for a while behind a small receive window (back pressure through Squid)
+    o = peers.Origin(rec, responder, stall=1.2 if stall else 0.0, rcvbuf=4096 if stall else None)
     second = {}
     if par.get('early'):
         async def on_head(qh, oc):
@@ -135,7 +136,7 @@ async def realise(ctx, sq, n, scen, rnd, big):
         both = q.head.has('Content-Length') and q.head.has('Transfer-Encoding')
     else:
         both = False
-    return {'ev': ev, 'scen': par, 'sizes': usizes, 'seg': seg, 'pred_uframing': scen['uframing'], 'arrived': q is not None, 'both_cl_te': both, 'n': n, 'second': dict(second)}
+    return {'ev': ev, 'scen': par, 'sizes': usizes, 'seg': seg, 'pred_uframing': scen['uframing'], 'arrived': q is not None, 'both_cl_te': both, 'n': n, 'second': dict(second), 'stall': bool(stall), 'big': bool(big)}
 
 
 def run(ctx):
@@ -162,6 +163,11 @@ def run(ctx):
             for i, sc in enumerate(scens * (2 if ctx.thorough else 1)):
                 r0 = random.Random(ctx.seed * 100003 + i)
                 coros.append(realise(ctx, sq, i + 1, sc, r0, big=(r0.random() < (0.2 if ctx.thorough else 0.05) and sc['par']['units'] <= 2)))
+            # uploads larger than every buffer on the way to an origin that does not read for a while
+            slow = [sc for sc in scens if sc['par']['units'] in (1, 2) and sc['par']['abortAt'] < 0 and not sc['par']['expect'] and not sc['par'].get('early')]
+            rnd.shuffle(slow)
+            for j, sc in enumerate(slow[:(24 if ctx.thorough else 8)]):
+                coros.append(realise(ctx, sq, 50000 + j, sc, random.Random(ctx.seed * 977 + j), big=True, stall=True))
             return await escen.gather_limited(coros, limit=8)
         hist = asyncio.run(main())
         alive = sq.alive()
@@ -181,6 +187,8 @@ def run(ctx):
             if len(ctx.drift) < 5:
                 ctx.drift.append('upstream framing %s, ReqRelayImpl predicts %s for %s' % (h['ev'][1]['framing'], h['pred_uframing'], json.dumps(h['scen'])))
     ctx.cov['impl_distinct'] = len({json.dumps([h['scen'], h['sizes'], h['seg']], sort_keys=True) for h in hist})
+    ctx.cov['big_uploads_to_a_stalled_origin'] = sum(1 for h in hist if h.get('stall'))
+    ctx.cov['big_uploads_to_a_stalled_origin_complete'] = sum(1 for h in hist if h.get('stall') and any(e['e'] == 'Consume' and e['complete'] and e['intact'] for e in h['ev']))
     ctx.cov['early_origin_reply_scenarios'] = sum(1 for h in hist if h['scen'].get('early'))
     ctx.cov['early_origin_reply_followup_served'] = sum(1 for h in hist if h['scen'].get('early') and h['second'].get('arrived'))
     ctx.cov['reached_origin'] = len(with_consume)
